@@ -136,6 +136,9 @@ def parse_out(path):
 def run_harness(scenarios, tag, timeout=900):
     """Runs the scenarios on the implementation. Returns (traces, note)."""
     os.makedirs(RUN, exist_ok=True)
+    private = not tag.startswith("main_")          # concurrent checks (other trees) must not share scratch files
+    if private:
+        tag = "%s_%d" % (tag, os.getpid())
     cf = os.path.join(RUN, "cases_%s.jsonl" % tag)
     of = os.path.join(RUN, "impl_%s.jsonl" % tag)
     with open(cf, "w") as f:
@@ -143,10 +146,15 @@ def run_harness(scenarios, tag, timeout=900):
             f.write(json.dumps(s) + "\n")
     if os.path.exists(of):
         os.remove(of)
-    ov = go_overlay({"internal/index/manager/zz_verif_c10_test.go": HARNESS}, "c10")
+    ov = go_overlay({"internal/index/manager/zz_verif_c10_test.go": HARNESS}, "c10_" + hashlib.sha256(REPO.encode()).hexdigest()[:8])
     rc, out, dt = go_test(PKG, ov, "^TestVerifC10$", {"VERIF_CASES": cf, "VERIF_OUT": of}, timeout=timeout)
     note = "" if rc == 0 else "go harness rc=%d: %s" % (rc, out[-1500:])
-    return parse_out(of), note
+    traces = parse_out(of)
+    if private:
+        for x in (cf, of):
+            if os.path.exists(x):
+                os.remove(x)
+    return traces, note
 
 
 def run_cached(scenarios, seed, tier):
@@ -168,6 +176,8 @@ def run_cached(scenarios, seed, tier):
             if time.time() - os.path.getmtime(old) > 6 * 3600:
                 os.remove(old)
         json.dump({"scenarios": scenarios, "traces": traces, "note": note, "seconds": dt}, open(cp, "w"))
+        for x in glob.glob(os.path.join(RUN, "*_main_%s.jsonl" % key)):
+            os.remove(x)
     return traces, note, False, dt
 
 
@@ -506,12 +516,14 @@ def parse_model_line(line):
     }
 
 
-OBSERVABLES = ("idx", "used", "disk", "views")      # what C10/C13 speak about: a difference raises an alarm
-INTERNAL = ("queue", "jobs", "unc", "next")          # drift information only
+# what each property speaks about: a difference there raises an alarm, the rest is drift information only
+OBSERVABLES = {"C10": ("idx", "views"), "C13": ("idx", "used", "disk", "views")}
+ALLFIELDS = ("idx", "used", "disk", "views", "queue", "jobs", "unc", "next")
 
 
 def run_model(exe, scs, traces, tag):
     os.makedirs(RUN, exist_ok=True)
+    tag = "%s_%d" % (tag, os.getpid())
     cf = os.path.join(RUN, "model_cases_%s.txt" % tag)
     of = os.path.join(RUN, "model_%s.out" % tag)
     with open(cf, "w") as f:
@@ -529,13 +541,23 @@ def run_model(exe, scs, traces, tag):
                 res.append(cur)
             elif cur is not None and line:
                 cur.append(line)
+    for x in (cf, of):
+        if os.path.exists(x):
+            os.remove(x)
     return res, ("" if rc == 0 else "model driver rc=%d: %s" % (rc, out[-600:]))
 
 
-def compare_model(sc, trace, mlines):
+def compare_model(sc, trace, mlines, prop="C13"):
     """-> (failures on observables, drift notes)"""
+    obs = OBSERVABLES[prop]
     proj = impl_projection(trace)
     fails, drift = [], []
+    if "expect_steps" in sc:
+        # an enumerated schedule must be followed action by action (plus init, the release of open views, end)
+        acts = [s.get("act") for s in trace["steps"]]
+        body = [a for a in acts[1:] if a and a[0] != "end"]
+        if len(body) < sc["expect_steps"] or any(a[0] in ("start", "complete") for a in body[sc["expect_steps"]:]):
+            fails.append(fail("MODEL", "schedule-not-followed", 0, "the implementation did not follow the enumerated schedule %s: resolved actions %s" % (sc["script"], acts)))
     if len(mlines) < len(proj):
         fails.append(fail("MODEL", "model-short", len(mlines), "model printed %d observation lines for %d steps" % (len(mlines), len(proj))))
     for i, (p, ml) in enumerate(zip(proj, mlines)):
@@ -543,11 +565,11 @@ def compare_model(sc, trace, mlines):
         if "stuck" in m:
             fails.append(fail("MODEL", "model-stuck", i, "model cannot follow action %s: %s" % (trace["steps"][i].get("act"), m["stuck"])))
             break
-        bad = [k for k in OBSERVABLES if p[k] != m[k]]
+        bad = [k for k in obs if p[k] != m[k]]
         if bad:
             fails.append(fail("MODEL", "model-differs", i, "after %s: " % (trace["steps"][i].get("act"),) + "; ".join("%s impl=%s model=%s" % (k, p[k], m[k]) for k in bad), fields=bad))
             break
-        d = [k for k in INTERNAL if p[k] != m[k]]
+        d = [k for k in ALLFIELDS if k not in obs and p[k] != m[k]]
         if d:
             drift.append("%s step %d: %s" % (sc["name"], i, "; ".join("%s impl=%s model=%s" % (k, p[k], m[k]) for k in d)))
     return fails, drift
@@ -582,7 +604,75 @@ def history_features(sc, trace):
     return feat
 
 
+# ------------------------------------------------------------------ exhaustive schedules (thorough tier)
+EXH_BASES = [
+    # (name, captures, API actions in order, limit): every schedule of the API list is enumerated unless the limit is hit
+    ("imports-view", [[[0, 3]], [[1, 2]], [[0, 4], [2, 1]]], [("import", 1), ("import", 1), ("view",), ("import", 1)], 2000),
+    ("merge-vs-import", [[[0, 1]], [[1, 1]], [[2, 1]], [[0, 2], [3, 1]]], [("import", 1), ("import", 1), ("import", 1), ("view",), ("import", 1)], 2000),
+    ("queued-imports", [[[0, 2]], [[0, 1], [1, 1]], [[1, 3]], [[2, 2]]], [("import", 1), ("import", 2), ("view",), ("import", 1), ("release", 0)], 2000),
+    ("view-released-midway", [[[0, 1]], [[1, 1]], [[2, 1]]], [("import", 1), ("import", 1), ("view",), ("import", 1), ("release", 0)], 2000),
+    ("view-after-three", [[[0, 1]], [[1, 1]], [[2, 1]]], [("import", 1), ("import", 1), ("import", 1), ("view",)], 2000),
+    ("batch-import", [[[0, 1]], [[0, 1], [1, 1]], [[2, 1]]], [("import", 2), ("view",), ("import", 1), ("release", 0)], 2000),
+    ("tag-holds-list", [[[0, 3]], [[1, 2]]], [("import", 1), ("tagadd",), ("view",), ("import", 1)], 2000),
+    ("tag-and-merge", [[[0, 3]], [[1, 2]], [[2, 1]]], [("import", 1), ("tagadd",), ("import", 1), ("view",), ("import", 1)], 400),
+]
+
+
+def exhaustive_scenarios(exe):
+    """Every schedule (order of job starts/completions relative to the API calls and to each other) of a few small
+    API histories, enumerated on the extracted model (`modelrun enum`) and then executed on the implementation."""
+    os.makedirs(RUN, exist_ok=True)
+    inp, outp = os.path.join(RUN, "enum_in_%d.txt" % os.getpid()), os.path.join(RUN, "enum_out_%d.txt" % os.getpid())
+    with open(inp, "w") as f:
+        for name, caps, api, limit in EXH_BASES:
+            f.write("H %s\n" % name)
+            for k, pk in enumerate(caps):
+                f.write("cap %d %s\n" % (k, " ".join("%d:%d" % (a, b) for a, b in pk)))
+            nxt, nv = 0, 0
+            for a in api:
+                if a[0] == "import":
+                    f.write("api import %s\n" % " ".join(str(nxt + i) for i in range(a[1])))
+                    nxt += a[1]
+                elif a[0] == "view":
+                    f.write("api view %d\n" % nv)
+                    nv += 1
+                elif a[0] == "release":
+                    f.write("api release %d\n" % a[1])
+                else:
+                    f.write("api tagadd\n")
+            f.write("limit %d\n" % limit)
+    rc, out, _ = run([exe, "enum", inp, outp], timeout=300)
+    if rc != 0:
+        raise RuntimeError("modelrun enum failed: " + out[-500:])
+    scs, info, cur = [], {}, None
+    bases = {b[0]: b for b in EXH_BASES}
+    for line in open(outp):
+        line = line.strip()
+        if line.startswith("H "):
+            cur = bases[line[2:]]
+            n = 0
+        elif line.startswith("#"):
+            info[cur[0]] = line[1:].strip()
+        elif line and cur:
+            api = list(cur[2])
+            script = []
+            for tok in line.split():
+                if tok == "a":
+                    script.append(list(api.pop(0)))
+                else:
+                    script.append(["job", {"i": "import", "m": "merge", "t": "tag"}[tok]])
+            scs.append({"name": "x-%s-%d" % (cur[0], n), "caps": cur[1], "script": script, "tags": TAGDEFS[:1], "probe": 6,
+                        "expect_steps": len(script)})
+            n += 1
+    for x in (inp, outp):
+        os.remove(x)
+    return scs, info
+
+
 # ------------------------------------------------------------------ main
+EXH_INFO = {}
+
+
 def build_scenarios(tier, seed):
     rng = random.Random(seed * 7919 + 10)
     scs = []
@@ -597,6 +687,10 @@ def build_scenarios(tier, seed):
     n = 140 if tier == "quick" else 2500
     for i in range(n):
         scs.append(gen_scenario(rng, "h%04d" % i, big=(tier != "quick" and i % 4 == 0)))
+    if tier != "quick":
+        xs, info = exhaustive_scenarios(model_exe())
+        scs += xs
+        EXH_INFO.update(info)
     return scs
 
 
@@ -609,9 +703,13 @@ def failing(prop, sc, kinds, exe):
     return any(f["kind"] in kinds for f in fs)
 
 
-def minimise(prop, sc, kinds, exe, budget=28):
-    """ddmin over the script (captures are kept)."""
+def minimise(prop, sc, kinds, exe, budget=28, seconds=45):
+    """ddmin over the script (captures are kept); bounded in tests and in wall time (a broken tree may hang per run)."""
+    t0 = time.time()
+
     def fails(script):
+        if time.time() - t0 > seconds:
+            return False
         return failing(prop, dict(sc, script=script), kinds, exe)
     script = ddmin(list(sc["script"]), fails, max_tests=budget)
     return dict(sc, script=script)
@@ -650,7 +748,7 @@ def main_for(prop, tier, seed, replay=None):
             feats_all[f] = feats_all.get(f, 0) + 1
         if len(tr["steps"]) >= 6 and ("merge-completed" in feats or "view-opened-while-jobs-in-flight" in feats):
             nontrivial.add(json.dumps([sc["caps"], [s.get("act") for s in tr["steps"]]]))
-        mf, drift = compare_model(sc, tr, mouts[idx] if idx < len(mouts) else [])
+        mf, drift = compare_model(sc, tr, mouts[idx] if idx < len(mouts) else [], prop)
         drift_all += drift
         if replay:
             print("scenario:", json.dumps(sc))
@@ -712,6 +810,7 @@ def main_for(prop, tier, seed, replay=None):
         "rule": "gated histories of a real Manager (8-60 script entries + drain to quiescence): ImportPcaps (also queued), open/read/release view, AddTag, start/complete of parked import/merge/tag jobs; "
                 "after every action: state dump from inside the service loop, directory listing, battery on every open view. non-trivial = >= 6 steps and (a merge completed or a view was opened while jobs were in flight), distinct by captures+resolved action list",
         "feature_counts": feats_all,
+        "exhaustive_schedules": {k: v + ("" if "limit" in v else " (all schedules of this API history)") for k, v in EXH_INFO.items()},
         "harness_seconds": round(hsec, 1), "harness_cached": cached,
         "internal_drift": drift_all[:10], "internal_drift_count": len(drift_all),
         "known_findings_seen": nknown, "fixed_findings": fixed, "known_findings_listed": [k["text"] for k in known],
